@@ -59,9 +59,9 @@ APIS = ["text", "pages", "fp_text", "fp_xml"]
 def minimums(tier: str) -> Dict[str, int]:
     if tier == "quick":
         return {"evaluations": 4000, "distinct": 150, "calls_compared": 4000, "fingerprint_checks": 4000, "interleaved_pages": 300,
-                "seen:docs_used": 48, "page_at_a_time_calls": 300, "caching_off_calls": 800, "group_round_robins": 16}
+                "seen:docs_used": 50, "page_at_a_time_calls": 300, "caching_off_calls": 800, "group_round_robins": 16}
     return {"evaluations": 100000, "distinct": 3000, "calls_compared": 90000, "fingerprint_checks": 90000, "interleaved_pages": 8000,
-            "seen:docs_used": 48, "page_at_a_time_calls": 9000, "caching_off_calls": 25000, "group_round_robins": 16}
+            "seen:docs_used": 50, "page_at_a_time_calls": 9000, "caching_off_calls": 25000, "group_round_robins": 16}
 
 
 # --------------------------------------------------------------------------
@@ -371,6 +371,26 @@ def build_pool() -> List[Dict[str, Any]]:
     add("type1-program-overrides-standardencoding", page_doc([{"content": b"BT /F1 12 Tf 30 200 Td (ABC) Tj ET", "resources": {"Font": {"F1": t1d.add(t1a)}}, "mediabox": [0, 0, 300, 300]},
                                                               {"content": b"BT /F1 12 Tf 30 200 Td (ABC) Tj ET", "resources": {"Font": {"F1": t1d.add(t1b)}}, "mediabox": [0, 0, 300, 300]}], doc=t1d).build(),
         "enc:StandardEncoding")
+    # a CID font whose /Encoding names a CMap that does not exist but is spelled like a character collection
+    # (Adobe-Japan1): "not found as a CMap" must not become "not found as a collection" for the documents read afterwards
+    nd = Doc()
+    nfd = nd.add({"Type": N("FontDescriptor"), "FontName": N("NoSuchCMap"), "Flags": 4, "FontBBox": [0, -200, 1000, 800], "ItalicAngle": 0,
+                  "Ascent": 800, "Descent": -200, "CapHeight": 700, "StemV": 80})
+    ncid = nd.add({"Type": N("Font"), "Subtype": N("CIDFontType0"), "BaseFont": N("NoSuchCMap"),
+                   "CIDSystemInfo": {"Registry": b"Adobe", "Ordering": b"Identity", "Supplement": 0}, "FontDescriptor": nfd, "DW": 1000})
+    nf = nd.add({"Type": N("Font"), "Subtype": N("Type0"), "BaseFont": N("NoSuchCMap"), "Encoding": N("Adobe-Japan1"), "DescendantFonts": [ncid]})
+    add("encoding-named-like-a-collection", page_doc([{"content": b"BT /F1 12 Tf 30 200 Td <0041> Tj ET", "resources": {"Font": {"F1": nf}}, "mediabox": [0, 0, 300, 300]}] * 2, doc=nd).build(), "cmap")
+    # an EMPTY content stream shared by the /Contents arrays of several pages: decoding it a second time (cached stream
+    # object) gives the same nothing
+    ed = Doc()
+    eprolog = ed.add(Stream({}, b""))
+    eflate = ed.add(Stream({"Filter": N("FlateDecode")}, __import__("zlib").compress(b"")))
+    eres = {"Font": {"F1": font_type1("Helvetica")}}
+    epages = []
+    for i in range(3):
+        ec = ed.add(Stream({}, b"BT /F1 12 Tf 30 200 Td (page %d) Tj ET" % i))
+        epages.append({"content": b"", "resources": eres, "mediabox": [0, 0, 300, 300], "extra": {"Contents": [eprolog, ec, eflate]}})
+    add("shared-empty-streams", page_doc(epages, doc=ed).build(), "misc")
     # more encrypted twins with OTHER keys and crypt filters of the same name (StdCF): iterators over several of them
     # are interleaved, so each document must keep using its own handler and key
     tw = _simple_doc(dict(helv, Encoding=N("WinAnsiEncoding")), t2)
